@@ -39,6 +39,8 @@ pub struct MsgUse {
     pub sender: fuel_core_types::fuel_tx::Address,
     pub recipient: fuel_core_types::fuel_tx::Address,
     pub amount: u64,
+    /// payload of a `MessageData*` input (empty for `MessageCoin*`)
+    pub data: Vec<u8>,
 }
 
 /// The contents of one transaction as the oracles see it.
@@ -55,6 +57,16 @@ pub struct TxInfo {
     pub contracts: Vec<ContractId>,
     pub outputs: Vec<Out>,
     pub blob: Option<BlobId>,
+    /// input variants in input order (evidence / coverage)
+    pub variants: Vec<&'static str>,
+    /// spendable inputs (coins, messages) in the transaction's real input order
+    pub spend_order: Vec<InRef>,
+}
+
+#[derive(Clone, Copy, Debug, PartialEq, Eq)]
+pub enum InRef {
+    Coin(UtxoId),
+    Msg(Nonce),
 }
 
 impl TxInfo {
@@ -62,7 +74,23 @@ impl TxInfo {
         let mut coins = Vec::new();
         let mut msgs = Vec::new();
         let mut contracts = Vec::new();
+        let mut variants = Vec::new();
+        let mut spend_order = Vec::new();
         for i in tx.inputs() {
+            if i.is_coin() {
+                spend_order.push(InRef::Coin(*i.utxo_id().expect("coin")));
+            } else if i.is_message() {
+                spend_order.push(InRef::Msg(*i.nonce().expect("message")));
+            }
+            variants.push(match i {
+                Input::CoinSigned(_) => "coin_signed",
+                Input::CoinPredicate(_) => "coin_predicate",
+                Input::Contract(_) => "contract",
+                Input::MessageCoinSigned(_) => "message_coin_signed",
+                Input::MessageCoinPredicate(_) => "message_coin_predicate",
+                Input::MessageDataSigned(_) => "message_data_signed",
+                Input::MessageDataPredicate(_) => "message_data_predicate",
+            });
             match i {
                 Input::CoinSigned(_) | Input::CoinPredicate(_) => {
                     coins.push((
@@ -81,6 +109,7 @@ impl TxInfo {
                         sender: *i.sender().expect("message"),
                         recipient: *i.recipient().expect("message"),
                         amount: i.amount().expect("message"),
+                        data: i.input_data().map(|d| d.to_vec()).unwrap_or_default(),
                     });
                 }
             }
@@ -125,6 +154,8 @@ impl TxInfo {
             contracts,
             outputs,
             blob,
+            variants,
+            spend_order,
         }
     }
 
